@@ -121,6 +121,13 @@ def markers(stream, name):
 
 
 CORPUS = [
+    # `audits throughout` with a predicate over a signal that never arrives: the period is the whole play
+    ({"signals": [("s", "scalar")], "actors": ["a"], "members": [
+        {"name": "m0", "cond": g.TRUE, "assigns": [], "expect": ("eventually", ("bin", "gt", g.var("s", "a"), g.num(100))), "watches": []}]}, []),
+    ({"signals": [("s", "scalar")], "actors": ["a", "b"], "members": [
+        {"name": "m0", "cond": g.TRUE, "assigns": [], "expect": ("always", ("bin", "gt", g.var("s", "b"), g.num(1))), "watches": []},
+        {"name": "m1", "cond": g.TRUE, "assigns": [], "expect": ("once", ("bin", "gt", g.var("s", "a"), g.num(1))), "watches": []}]},
+     [("sig", F(1), [("scalar", "a", "s", F(2))]), ("mood", F(2), "red")]),
     # signal-only predicate: the period must still be closed at the end of the play
     ({"signals": [("s", "scalar")], "actors": ["a"], "members": [
         {"name": "m0", "cond": g.TRUE, "assigns": [], "expect": ("eventually", ("bin", "gt", g.var("s", "a"), g.num(100))), "watches": []}]},
@@ -193,6 +200,11 @@ def run(tier, seed):
                 mk = markers(im["stream"], m["name"])
                 shape = "signal-only" if m["expect"] and all(a for a, _ in g.deps(m["expect"][1])) and all(a for a, _ in g.deps(m["cond"])) else "mixed"
                 rep.count("auditor-deps:" + shape)
+                if m["cond"] == g.TRUE and m["expect"] and (not mk or mk[0] != "S" or mk[-1] != "E"):
+                    # `audits throughout`: one period, the whole play, whatever the predicate mentions
+                    ofail.append({"config": text, "events": g.events_json(evs), "auditor": m["name"], "markers": ",".join(mk) or "-",
+                                  "oracle": "FAIL an `audits throughout` auditor has one period spanning the play and gets its end-of-period judgement; markers: %s" % (",".join(mk) or "none"),
+                                  "shape": "throughout-never-opened", "open_at_end": False})
                 o = model.ask("C02 oracle %s %s" % (hexs(m["expect"][0]) if m["expect"] else "none", ",".join(mk) or "-"))
                 if o != "ok":
                     ofail.append({"config": text, "events": g.events_json(evs), "auditor": m["name"], "markers": ",".join(mk),
